@@ -54,7 +54,7 @@ Definition n_ (s : string) := (T_NUM_LIT, s).
 Definition k_ (t : toktype) := (t, ""%string).
 
 Definition B1 : benv :=
-  {| b_funcs := [(s_ "print", false); (s_ "len", false)]; b_globals := [s_ "err"];
+  {| b_funcs := [(s_ "print", false); (s_ "len", false)]; b_arity := [(s_ "print", None); (s_ "len", Some 1)]; b_globals := [s_ "err"];
      b_events := [(s_ "key", [TyStr])]; b_tyerr := fun _ _ _ => false |}.
 Definition run (ls : list (list (toktype * string))) : outcome := parse B1 (prog ls) (List.length ls + 1, 1).
 Definition rejected (o : outcome) : bool := match o with Reject (_ :: _) => true | _ => false end.
